@@ -233,7 +233,22 @@ def run(chk):
             if rc != 0:
                 raise vlib.BuildError("generated C14 program does not build", out)
             env = dict(vlib.GOENV, GORACE="halt_on_error=0")
-            rc, out = vlib.sh(["./prog"], cwd=d, timeout=900, env=env)
+            # the Go runtime may abort the process with `fatal error: concurrent map writes` when two racing map accesses
+            # really overlap: restart after the scenario that was running (retry it twice first) until ALLDONE is printed
+            outs, start, tries = [], 0, {}
+            for _ in range(40):
+                rc, out = vlib.sh(["./prog", str(start)], cwd=d, timeout=900, env=env)
+                outs.append(out)
+                if "ALLDONE" in out:
+                    break
+                begun = [int(x) for x in re.findall(r"^BEGIN (\d+)$", out, flags=re.M)]
+                last = begun[-1] if begun else start
+                tries[last] = tries.get(last, 0) + 1
+                stats["native_restarts"] = stats.get("native_restarts", 0) + 1
+                start = last if tries[last] < 3 else last + 1
+            else:
+                raise vlib.BuildError("generated C14 program never ran to completion", "\n".join(outs)[-3000:])
+            out = "\n".join(outs)
             open(os.path.join(d, "race.txt"), "w").write(out)
             return out
 
@@ -287,6 +302,9 @@ def run(chk):
                     if desc:
                         distinct.add((desc[0], tuple(sorted(set(k for _, k, _ in acc)))))
         stats["scenarios_with_race_at_acc"] += len(acc_hit)
+        if len(acc_hit) * 10 < len(scens) * 8:
+            raise vlib.BuildError("ground truth lost: only %d of %d generated scenarios raced at their checked access" % (len(acc_hit), len(scens)),
+                                  out[-3000:])
         for i in sorted(acc_hit)[:3]:
             chk.sample({"scenario": info[i]["desc"], "race_at_acc_line": True})
 
